@@ -24,6 +24,34 @@ size_t nondet_size_t(void);
 int nondet_int(void);
 _Bool nondet_bool(void);
 #define VERIF_WANT_FORMAT 1
+/* ghost index: one arbitrary element position, fixed by the harness before the call ("for all g" by generalisation) */
+extern size_t verif_g;
+/* ghost: the total length of the labels of the vector being encoded (the same Sigma in the sizing pass and in the encoding pass) */
+extern size_t verif_sum;
+/* ghost call log: the k-th call of a contract stub made by the function under check */
+typedef struct { int fn; const void* p[4]; uint64_t v[4]; const void* ret; const void* retv; uint64_t retval; } verif_call_t;
+extern const void* verif_mark[4];   /* addresses of locals snapshotted by ghost code */
+extern verif_call_t verif_calls[24];
+extern size_t verif_ncalls;
+#define VERIF_LOG_CALL(F, p0, p1, p2, p3, v0, v1, v2, v3) { if (verif_ncalls < 24) { verif_calls[verif_ncalls].fn = (F); \
+  verif_calls[verif_ncalls].p[0] = (p0); verif_calls[verif_ncalls].p[1] = (p1); verif_calls[verif_ncalls].p[2] = (p2); verif_calls[verif_ncalls].p[3] = (p3); \
+  verif_calls[verif_ncalls].v[0] = (v0); verif_calls[verif_ncalls].v[1] = (v1); verif_calls[verif_ncalls].v[2] = (v2); verif_calls[verif_ncalls].v[3] = (v3); } verif_ncalls++; }
+#define VERIF_LOG_RET(r) { if (verif_ncalls >= 1 && verif_ncalls <= 24) verif_calls[verif_ncalls - 1].ret = (r); }
+#define VERIF_LOG_RETV(r) { if (verif_ncalls >= 1 && verif_ncalls <= 24) verif_calls[verif_ncalls - 1].retv = (r); }
+#define RETV(k) (verif_calls[k].retv)
+#define VERIF_LOG_RETVAL(r) { if (verif_ncalls >= 1 && verif_ncalls <= 24) verif_calls[verif_ncalls - 1].retval = (r); }
+#define RETVAL(k) (verif_calls[k].retval)
+/* a summarised loop appears in the call log as a pseudo call: fn = -(loop ordinal + 1), p[0] = the container, p[1] = position before, ret = position after */
+#define VERIF_LOG_LOOP(k, cont, before, after) { VERIF_LOG_CALL(-((k) + 1), (const void*)(cont), (const void*)(before), 0, 0, 0, 0, 0, 0) VERIF_LOG_RET((const void*)(after)) }
+#define LOOPED(j, k, cont, pos) (verif_ncalls > (j) && verif_calls[j].fn == -((k) + 1) && ARGP(j, 0) == (const void*)(cont) && ARGP(j, 1) == (const void*)(pos))
+/* layout assertions over the call log: the k-th codec call wrote/read value bits at position pos */
+#define WROTE(k, F, bits, pos) (CALLED(k, F) && ARGV(k, 0) == (uint64_t)(bits) && ARGP(k, 1) == (const void*)(pos))
+#define READ(k, F, pos) (CALLED(k, F) && ARGP(k, 0) == (const void*)(pos))
+#define CALLED(k, F) (verif_ncalls > (k) && verif_calls[k].fn == FN_##F)
+#define ARGP(k, i) (verif_calls[k].p[i])
+#define ARGV(k, i) (verif_calls[k].v[i])
+#define RETP(k) (verif_calls[k].ret)
+
 #else
 #include <stdio.h>
 static void verif_fail(const char* msg) { fprintf(stderr, "VERIF_ASSERT failed: %s\n", msg); abort(); }
@@ -73,7 +101,9 @@ static void verif_fail(const char* msg) { fprintf(stderr, "VERIF_ASSERT failed: 
   static T* vec_##TAG##_back(const vec_##TAG* v) { VERIF_ASSERT(v->size > 0, "check: back() of non-empty vector"); return &v->data[v->size - 1]; } \
   static T* vec_##TAG##_front(const vec_##TAG* v) { VERIF_ASSERT(v->size > 0, "check: front() of non-empty vector"); return &v->data[0]; } \
   static T* vec_##TAG##_at(const vec_##TAG* v, size_t i) { if (i >= v->size) { verif_exc = EXC_std_out_of_range; return v->data; } return &v->data[i]; } \
-  static vec_##TAG vec_##TAG##_copy_shallow(const vec_##TAG* s) { vec_##TAG v = vec_##TAG##_default(); VERIF_ASSUME(s->size <= v.cap); v.size = s->size; return v; }
+  static vec_##TAG vec_##TAG##_copy_shallow(const vec_##TAG* s) { vec_##TAG v = vec_##TAG##_default(); VERIF_ASSUME(s->size <= v.cap); v.size = s->size; \
+    /* a copy copies every element: stated for the arbitrary ghost position verif_g */ \
+    if (verif_g < s->size) v.data[verif_g] = s->data[verif_g]; return v; }
 #else
 static void* verif_alloc(size_t n, size_t sz)
 {
